@@ -413,6 +413,128 @@ func c19RunSchedule(prog c19Program, schedule []int, free *rand.Rand) (trace []c
 	return
 }
 
+// c19TwoWriters: two writes on the same triple overlap. Writer A is held at one
+// of its internal steps while writer B (the opposite operation on the same
+// triple, same or another handle) runs to completion; then A finishes. After
+// quiescence every read through the wrapper has to equal the wrapped store.
+func c19TwoWriters(r *rt.Rec, which int) {
+	points := []string{"write:after-clear", "write:after-inner", "write:after-forward"}
+	point := points[which%3]
+	aAdds := (which/3)%2 == 0
+	otherHandle := (which/6)%2 == 1
+	preRead := (which/12)%2 == 1
+	label := fmt.Sprintf("two-writers|A=%v@%s|other-handle=%v|pre-read=%v", map[bool]string{true: "add", false: "remove"}[aAdds], point, otherHandle, preRead)
+	r.Begin(label)
+	ctx := context.Background()
+	inner := memory.NewStore()
+	wrapped := memoization.New(inner)
+	ig, _ := inner.NewGraph(ctx, "?g")
+	t := c19T(2)
+	base := []*triple.Triple{c19T(0), c19T(1)}
+	if !aAdds {
+		base = append(base, t) // A removes a stored triple, B re-adds it
+	}
+	ig.AddTriples(ctx, base)
+	hA, _ := wrapped.Graph(ctx, "?g")
+	hB := hA
+	if otherHandle {
+		hB, _ = wrapped.Graph(ctx, "?g")
+	}
+	queries := []ref.Query{
+		{Method: "Triples"},
+		{Method: "Objects", S: gen.VNodes[0], P: gen.MustImm("p")},
+		{Method: "TriplesForSubject", S: gen.VNodes[0]},
+		{Method: "TriplesForObject", O: triple.NewNodeObject(gen.VNodes[3])},
+		{Method: "PredicatesForSubjectAndObject", S: gen.VNodes[0], O: triple.NewNodeObject(gen.VNodes[3])},
+	}
+	readAll := func(g storage.Graph) []string {
+		var out []string
+		for _, tt := range []*triple.Triple{c19T(0), c19T(1), t} {
+			ok, err := g.Exist(ctx, tt)
+			out = append(out, fmt.Sprintf("Exist(%s)=%v,%v", tt, ok, err != nil))
+		}
+		for _, q := range queries {
+			res, _, _ := ref.Call(ctx, g, q, storage.DefaultLookup)
+			sort.Strings(res)
+			out = append(out, q.Method+"="+strings.Join(res, "|"))
+		}
+		return out
+	}
+	if preRead {
+		readAll(hA)
+		readAll(hB)
+	}
+	type keyA struct{}
+	held := make(chan struct{})
+	release := make(chan struct{})
+	var once sync.Once
+	reached := false
+	memoization.VerifYield = func(c context.Context, pt string) {
+		if c.Value(keyA{}) == nil || pt != point {
+			return
+		}
+		once.Do(func() {
+			reached = true
+			close(held)
+			<-release
+		})
+	}
+	memory.VerifYield = nil
+	defer func() { memoization.VerifYield = nil }()
+	doneA := make(chan struct{})
+	go func() {
+		defer close(doneA)
+		ca := context.WithValue(ctx, keyA{}, 1)
+		if aAdds {
+			hA.AddTriples(ca, []*triple.Triple{t})
+		} else {
+			hA.RemoveTriples(ca, []*triple.Triple{t})
+		}
+	}()
+	select {
+	case <-held:
+	case <-doneA: // the step is not on this path
+	}
+	doneB := make(chan struct{})
+	go func() {
+		defer close(doneB)
+		if aAdds {
+			hB.RemoveTriples(ctx, []*triple.Triple{t})
+		} else {
+			hB.AddTriples(ctx, []*triple.Triple{t})
+		}
+	}()
+	bWhileHeld := false
+	select {
+	case <-doneB:
+		bWhileHeld = true
+	case <-time.After(300 * time.Millisecond):
+		// B waits for A (a lock): legitimate, it will finish after A
+	}
+	close(release)
+	<-doneA
+	<-doneB
+	memoization.VerifYield = nil
+	r.Eval(1)
+	got, want := readAll(hA), readAll(ig)
+	gotB := readAll(hB)
+	for i := range want {
+		if got[i] != want[i] || gotB[i] != want[i] {
+			kind := strings.SplitN(want[i], "=", 2)[0]
+			if strings.HasPrefix(kind, "Exist") {
+				kind = "Exist"
+			}
+			r.Violation("read-differs/two-writers/"+kind, fmt.Sprintf("after two overlapping writes on one triple (A held at %s while B ran) a read through the memoizer differs from the wrapped store: wrapper %q / %q, wrapped store %q", point, got[i], gotB[i], want[i]),
+				map[string]interface{}{"case": label, "wrapper": got, "wrapper_other_handle": gotB, "wrapped": want})
+			break
+		}
+	}
+	if reached && bWhileHeld {
+		r.Nontrivial(label)
+	}
+	r.Count("two_writer_overlaps", 1)
+}
+
 func c19T(i int) *triple.Triple {
 	return gen.MustTriple(gen.VNodes[0], gen.MustImm("p"), triple.NewNodeObject(gen.VNodes[1+i]))
 }
@@ -941,6 +1063,7 @@ func init() {
 					// add / remove batches, Exist and full listing after every step
 					c01Histories(r, gen.Rng(seed, "c19h", i), n/32+1, 40, func(s storage.Store) storage.Store { return memoization.New(s) })
 				}},
+				{Name: "two-writers", N: 24, Exhaustive: true, Run: func(i int, r *rt.Rec) { c19TwoWriters(r, i) }},
 				{Name: "key-confusion", N: 8, Run: func(i int, r *rt.Rec) { c19KeyConfusion(r, gen.Rng(seed, "c19k", i), kc) }},
 				{Name: "handle-race", N: 8, Procs: 16, Run: func(i int, r *rt.Rec) { c19HandleRace(r, gen.Rng(seed, "c19hr", i), hr) }},
 				{Name: "fault-then-read", N: 8, Run: func(i int, r *rt.Rec) { c19FaultThenRead(r, gen.Rng(seed, "c19f", i), n/16+4) }},
